@@ -5,6 +5,7 @@ import (
 	"encoding/json"
 	"errors"
 	"fmt"
+	"io"
 	"os"
 	"path/filepath"
 	"strconv"
@@ -227,6 +228,8 @@ func unpackFaults(base string, h *uHeader, g *arena.Gamma, c *uCase, full *uObs,
 
 func unpackMain() int {
 	relAllow = *flagMode == "allowrel"
+	unpriv = *flagMode == "unpriv"
+	defer uwStopAll()
 	props := strings.Split(*flagProps, ",")
 	var gammas []int64
 	for _, s := range strings.Split(*flagGamma, ",") {
@@ -239,6 +242,9 @@ func unpackMain() int {
 		return 2
 	}
 	defer arena.RemoveAll(base)
+	if unpriv {
+		os.Chmod(base, 0755)
+	}
 	acc := cases.NewAcc("unpack", *flagMis)
 	var hdr *uHeader
 	var gs []*arena.Gamma
@@ -348,6 +354,11 @@ func unpackOnce(base string, h *uHeader, g *arena.Gamma, c *uCase, w int, n int6
 	if err := g.Setup(root, h.FS0); err != nil {
 		return nil, "setup: " + err.Error()
 	}
+	if unpriv {
+		if err := chownTree(root); err != nil {
+			return nil, "chown: " + err.Error()
+		}
+	}
 	before := g.Snapshot(root)
 	if !arena.SameFS(before, arena.FromList(h.FS0)) {
 		return nil, "arena does not project back to FS0: " + strings.Join(arena.Diff(arena.FromList(h.FS0), before), "; ")
@@ -417,6 +428,18 @@ func unpackOnce(base string, h *uHeader, g *arena.Gamma, c *uCase, w int, n int6
 	}
 	// dst may be spelled with a trailing slash or a trailing "/." (same directory)
 	dst += []string{"", "/", "/."}[int(n)%3]
+	if unpriv {
+		if c.Fault != nil || len(h.Allow) > 0 {
+			return nil, "unprivileged replay has no fault / allow-list mode"
+		}
+		gzb, _ := io.ReadAll(rd)
+		rep, infra := unprivUnpack(w, gzb, filepath.Join(base, fmt.Sprintf("job-%d.tgz", w)), dst)
+		if infra != "" {
+			return nil, infra
+		}
+		return &uObs{Hist: c.Hist, St: rep.St, Fs: arena.SnapshotList(g.Snapshot(root)), Gamma: g.Seed,
+			Err: strings.ReplaceAll(rep.Err+rep.Panic, root, ""), FaultNotes: []string{}}, ""
+	}
 	var uerr error
 	panicked := ""
 	func() {
@@ -438,6 +461,7 @@ func unpackOnce(base string, h *uHeader, g *arena.Gamma, c *uCase, w int, n int6
 }
 
 var relAllow = false
+var unpriv = false
 
 // warmUnpack uses p once on a scratch destination outside the arena's abstract root.
 func warmUnpack(p *slug.Packer, root string) {
